@@ -315,6 +315,11 @@ def find_blocked_reactions(
         ].index.tolist()
         # Run FVA to find reactions where both the minimal and maximal flux
         # are zero (below the cut off).
+        # Whether a reaction can carry flux depends on the stoichiometry and the
+        # bounds only. With the model's objective in place, FVA at a fraction of
+        # zero would still require `objective >= 0` (or `<= 0` when minimizing)
+        # and hide reactions that only carry flux at a negative objective.
+        model.objective = Zero
         flux_span = flux_variability_analysis(
             model,
             fraction_of_optimum=0.0,
